@@ -35,6 +35,13 @@ def decode_escapes(s):
     return ESCAPE_SEQUENCE_RE.sub(decode_match, s)
 
 
+def _decode_string_token(t):
+    try:
+        return decode_escapes(t.value[1:-1])
+    except UnicodeDecodeError:
+        raise exceptions.YaqlLexicalException(t.value, t.lexpos)
+
+
 # noinspection PyPep8Naming
 class Lexer:
     t_ignore = ' \t\r\n'
@@ -120,7 +127,7 @@ class Lexer:
         """
         '([^'\\\\]|\\\\.)*'
         """
-        t.value = decode_escapes(t.value[1:-1])
+        t.value = _decode_string_token(t)
         return t
 
     @staticmethod
@@ -128,7 +135,7 @@ class Lexer:
         """
         "([^"\\\\]|\\\\.)*"
         """
-        t.value = decode_escapes(t.value[1:-1])
+        t.value = _decode_string_token(t)
         t.type = 'QUOTED_STRING'
         return t
 
